@@ -328,3 +328,49 @@ package redisemu
 //@ ensures consumed: valid ==> length > 0 && rl.pos == old(rl.pos)+length && rl.pos <= len(rl.content)
 //@ ensures bounded: old(rl.pos) <= rl.pos && rl.pos <= len(rl.content)
 //@ ensures [C01] invalid: !valid ==> length == 0
+
+// ---------------------------------------------------------------- C18: BITPOS inside one byte
+// the first position, counted from testBit downwards and not beyond stopBit, whose bit equals the one searched for
+//@ func findBitInByte
+//@ pure
+//@ prop C18 C13
+//@ fresh tb in 0..7 split
+//@ fresh sb in 0..7 split
+//@ caseonly sb <= tb
+//@ requires [C13,C18] single.bits: testBit != 0 && testBit&(testBit-1) == 0 && stopBit != 0 && stopBit&(stopBit-1) == 0 && stopBit <= testBit
+//@ requires testBit == uint8(1)<<uint(tb) && stopBit == uint8(1)<<uint(sb)
+//@ loop 1 unroll 9
+//@ ensures [C18] value: result == specFindInByte(b, searchBit, testBit, stopBit)
+//@ ensures [C18] range: result >= -1 && result <= 7
+
+// ---------------------------------------------------------------- C18: BITPOS over a byte string
+// bpBit(b, i): bit i of b (0 = most significant bit of the first byte) is set
+//@ uf bpBit(b []byte, i int) bool
+//@ axiom forall b []byte, i int :: 0 <= i && i < len(b)*8 ==> bpBit(b, i) == ((b[i/8] & (uint8(128) >> uint(i%8))) > 0)
+
+// The reply is the first bit of the range that equals the searched bit. gBpS and
+// gBpE are the first and last bit of the range after the index arguments have
+// been normalised and clamped into the value (gBpRanged: that point was reached).
+//@ ghost gBpS int
+//@ ghost gBpE int
+//@ ghost gBpRanged bool
+//@ func findBit
+//@ prop C18
+//@ safetyprop C13
+//@ modifies ghost.gBpS ghost.gBpE ghost.gBpRanged
+//@ requires [C18] unit: width == 1 || width == 8
+//@ requires [C13] size: len(bytes) <= 536870912
+//@ ghostentry gBpRanged = false
+//@ ghostbefore "startByte := startBit / 8" : gBpS = startBit
+//@ ghostbefore "startByte := startBit / 8" : gBpE = endBit
+//@ ghostbefore "startByte := startBit / 8" : gBpRanged = true
+//@ assertbefore "startByte := startBit / 8" [C18] clamped: 0 <= startBit && startBit <= endBit && endBit < len(bytes)*8
+//@ assertbefore "fullEnd := endByte" slow [C18] first.byte.done: forall i int :: gBpS <= i && i < startBit && i <= gBpE ==> bpBit(bytes, i) != searchBit
+//@ assertbefore "fullEnd := endByte" [C18] aligned: startBit == startByte*8 && index == startByte && gBpS <= startBit && startByte <= endByte + 1 && endByte == gBpE/8 && endByte < len(bytes) && lastBit == uint8(1)<<uint(7 - gBpE%8) && 0 <= startByte
+//@ loop 1 invariant startBit == startByte*8 && 0 <= startByte && startByte <= index && (index <= fullEnd + 1 || index == startByte) && fullEnd <= endByte && endByte == gBpE/8 && endByte < len(bytes) && gBpS <= startBit && lastBit == uint8(1)<<uint(7 - gBpE%8) && (fullEnd == endByte || fullEnd == endByte - 1) && ((fullEnd == endByte) == (lastBit == 1)) && 0 <= gBpS && gBpS <= gBpE && gBpRanged && startByte <= endByte + 1
+//@ loop 1 invariant slow [C18] skipped: forall i int :: gBpS <= i && i < index*8 && i <= gBpE ==> bpBit(bytes, i) != searchBit
+//@ ensures [C18] found.in.range: gBpRanged && result >= 0 && result != len(bytes)*8 ==> gBpS <= result && result <= gBpE
+//@ ensures slow [C18] found.bit: gBpRanged && result >= 0 && result != len(bytes)*8 ==> bpBit(bytes, result) == searchBit
+//@ ensures slow [C18] found.first: forall i int :: gBpRanged && result >= 0 && gBpS <= i && i < result && i <= gBpE ==> bpBit(bytes, i) != searchBit
+//@ ensures slow [C18] none: forall i int :: gBpRanged && result == -1 && gBpS <= i && i <= gBpE ==> bpBit(bytes, i) != searchBit
+//@ ensures [C18] none.early: !gBpRanged ==> result == -1
